@@ -1,6 +1,7 @@
 package checks
 
 import (
+	"os"
 	"context"
 	"errors"
 	"fmt"
@@ -294,36 +295,59 @@ func c20WUnits(thorough bool) []*explore.Unit {
 	return units
 }
 
+// c19WUnits: Close against requests travelling over real region clients. Two families:
+//   close@k   Close starts once k requests have reached a server (it then competes under
+//             the default schedule); requests are answered.
+//   step k    Close starts at scheduling step k of the execution, for every k up to the
+//             length of the Close-free run (vrt.AwaitFirst: an interrupt, it costs no
+//             deviation), with the user requests answered or held in flight by the servers.
+//             Every schedule "Close begins anywhere + d further deviations" is covered, which
+//             includes a sender that is past its done check when Close shuts its connection
+//             (Close begins there, one deviation takes it out again before the socket closes).
 func c19WUnits(thorough bool) []*explore.Unit {
 	var units []*explore.Unit
-	for at := -1; at <= 5; at++ {
-		at := at
+	type variant struct {
+		name   string
+		keys   []string
+		held   bool
+		at     int // close@at (attempt count), -2: unused
+		step   int // close at step, -1: never (probe run), -2: unused
+		bound  int
+		nsteps *int
+	}
+	mk := func(v variant) *explore.Unit {
 		var w *world
 		var errs [2]error
 		var lateErr error
 		var open, lingering []string
-		b := 1
-		if thorough {
-			b = 2
-		}
-		u := &explore.Unit{Name: fmt.Sprintf("wire|2 requests|close@%d", at), Bound: b, Opt: vrt.Options{MaxSteps: 80000}}
+		u := &explore.Unit{Name: v.name, Bound: v.bound, Opt: vrt.Options{MaxSteps: 80000}}
 		u.Body = func() {
 			cl := stdCluster()
+			if v.held {
+				cl.Hold["a"], cl.Hold["x"] = true, true
+			}
 			w = newWorldW(cl, gohbase.FlushInterval(0), gohbase.RpcQueueSize(1))
 			base := len(cl.Attempts)
 			fin := make(chan int, 3)
+			errs = [2]error{}
 			vrt.GoNamed("h:closer", func() {
-				if at >= 0 {
-					late := false
-					tm := vrt.AfterFunc(time.Hour, func() { late = true })
-					vrt.Await("h:close-trigger", func() bool { return late || len(cl.Attempts)-base >= at })
-					tm.Stop()
+				late := false
+				tm := vrt.AfterFunc(time.Hour, func() { late = true })
+				switch {
+				case v.step != -2:
+					vrt.AwaitFirst("h:close-at-step", func() bool { return late || (v.step >= 0 && vrt.Steps() >= v.step) })
+				case v.at >= 0:
+					vrt.Await("h:close-trigger", func() bool { return late || len(cl.Attempts)-base >= v.at })
+				}
+				tm.Stop()
+				if v.nsteps != nil {
+					*v.nsteps = vrt.Steps()
 				}
 				w.client.Close()
 				w.closedAt = w.now()
 				vrt.Send(fin, -1)
 			})
-			for i, k := range []string{"a", "x"} {
+			for i, k := range v.keys {
 				i, k := i, k
 				vrt.GoNamed(fmt.Sprintf("h:req%d", i), func() {
 					g, _ := hrpc.NewGetStr(context.Background(), "t", k)
@@ -331,7 +355,7 @@ func c19WUnits(thorough bool) []*explore.Unit {
 					vrt.Send(fin, i)
 				})
 			}
-			for i := 0; i < 3; i++ {
+			for i := 0; i < len(v.keys)+1; i++ {
 				vrt.Recv(fin)
 			}
 			g, _ := hrpc.NewGetStr(context.Background(), "t", "x")
@@ -375,7 +399,62 @@ func c19WUnits(thorough bool) []*explore.Unit {
 			}
 			return nil
 		}
-		units = append(units, u)
+		return u
+	}
+	b := 1
+	if thorough {
+		b = 2
+	}
+	both := []string{"a", "x"}
+	for at := -1; at <= 5; at++ {
+		units = append(units, mk(variant{name: fmt.Sprintf("wire|2 requests|close@%d", at), keys: both, at: at, step: -2, bound: b}))
+	}
+	type fam struct {
+		label string
+		keys  []string
+		held  bool
+	}
+	fams := []fam{{"1 request", both[:1], false}, {"1 request held in flight", both[:1], true}}
+	if thorough {
+		fams = append(fams, fam{"2 requests", both, false}, fam{"2 requests held in flight", both, true})
+	}
+	for _, f := range fams {
+		// the steps of the run in which Close comes only after everything has settled at
+		// which a thread running client code is resumed: Close interrupts just before each
+		// (interrupting before a step of a simulated server or of the harness itself is the
+		// same as interrupting before the next client step)
+		n := 0
+		vrt.Tracing = true
+		res, _ := explore.RunOnce(mk(variant{keys: f.keys, held: f.held, at: -2, step: -1, nsteps: &n}), nil)
+		vrt.Tracing = false
+		var ks []int
+		for i, line := range res.Trace {
+			st := res.TraceSteps[i]
+			// the held requests are retried on a timer for as long as nobody closes the
+			// client: the first round (virtual time 0) in the quick tier, the first
+			// 400 client steps in the thorough one
+			if st > n || (!thorough && !strings.HasSuffix(line, "@0s")) || len(ks) >= 400 {
+				break
+			}
+			name := line[strings.IndexByte(line, ':')+1:]
+			if strings.HasPrefix(name, "h:srv") || strings.HasPrefix(name, "h:closer") || strings.HasPrefix(name, "main ") {
+				continue
+			}
+			ks = append(ks, st)
+		}
+		for _, k := range ks {
+			fb := 0
+			if f.held || thorough {
+				fb = 1
+			}
+			if thorough && len(f.keys) == 1 {
+				fb = 2
+			}
+			units = append(units, mk(variant{name: fmt.Sprintf("wire|%s|close at step %d of %d", f.label, k, n), keys: f.keys, held: f.held, at: -2, step: k, bound: fb}))
+		}
+		if os.Getenv("VERIF_DEBUG") != "" {
+			fmt.Fprintf(os.Stderr, "c19W %s: n=%d client steps=%d\n", f.label, n, len(ks))
+		}
 	}
 	return units
 }
